@@ -500,12 +500,17 @@ func burstPrograms(c *RunCtx, nq, nt int) {
 	for v := 0; v < c.Q(nq, nt); v++ {
 		c.Program(fmt.Sprintf("burst/%d", v), func(p *Prog) {
 			r := p.Rng
-			cfg := burstCfg{WK: Pick(r, WPlain, WErr, WResult), QK: Pick(r, QFifo, QFifo, QPrio), N: sizes[v%len(sizes)], Preload: r.Bool(), Prods: Pick(r, 1, 1, 2, 3), Batch: r.Chance(25)}
+			cfg := burstCfg{WK: Pick(r, WPlain, WErr, WResult), QK: Pick(r, QFifo, QFifo, QPrio), N: sizes[v%len(sizes)], Preload: r.Bool(), Prods: Pick(r, 1, 2, 3, 4, 8), Batch: r.Chance(25)}
 			if c.Thorough() && v%40 == 39 {
 				cfg.N = Pick(r, 110000, 260000)
 				cfg.QK = QFifo
 			}
-			p.Explore(func(pl Plan) *Result { return epBurstOrder(c, cfg) }, ExploreOpts{Base: 1})
+			o := ExploreOpts{Base: 1}
+			if cfg.N < 7000 && cfg.Prods > 1 {
+				// stalls inside Enqueue/Dequeue: the sites of the segment hand-over are first hit exactly at a boundary
+				o = ExploreOpts{Base: 2, K: 2, Funcs: []string{"Queue.Enqueue", "Queue.Dequeue", "NewChunk", "Chunk.Push", "Chunk.Pop"}, MaxCases: c.Q(24, 60)}
+			}
+			p.Explore(func(pl Plan) *Result { return epBurstOrder(c, cfg) }, o)
 		})
 	}
 }
